@@ -665,6 +665,9 @@ def recursion_exponent_rule(ck, ix, qual):
                 if isinstance(c.op, ast.Add):
                     okc = is_comb(v)
                     seen_comb = seen_comb or okc
+                    # the combined exponent belongs to the entry being visited: it may only be added under that entry's key
+                    ck.check(norm(c.target.slice) == key or shape.rnorm(c.target.slice, fi.node) in (key, f"self.get_name({key})"), "G-PROV", f"{qual}|accumulates-under-visited-key", fi.loc(c), "the exponent is accumulated under the key of the visited entry",
+                             f"`{norm(c)}` adds the combined exponent of entry `{key}` under another key (`{norm(c.target.slice)}`): the entry's own reference (its exponents, derived dimensions) is not expanded")
                     ck.check(okc, "G-PROV", f"{qual}|accumulates-combined-exponent", fi.loc(c), "accumulates the combined exponent", f"`{norm(c)}` does not accumulate the combined exponent ({exp_p} * exponent in {ref_p})")
                 elif isinstance(c.op, ast.Mult):
                     ok = isinstance(v, ast.BinOp) and isinstance(v.op, ast.Pow) and is_comb(v.right) and "converter.scale" in shape.rnorm(v.left, fi.node)
